@@ -85,6 +85,10 @@ def build_tree(root):
     w("uploads/sub/b.tmp", b"SIBLING WITH TMP SUFFIX\n")
     w("uploads/data.tmp", b"A TARGET NAMED *.tmp\n" * 10)
     w("uploads/report.tmp", b"UNRELATED report.tmp\n")
+    # a user's own files that merely look like the handler's staging files, untouched for years
+    for rel in ("uploads/.upload-notes.tmp", "uploads/sub/.upload-2019.tmp"):
+        w(rel, b"USER FILE NAMED LIKE A STAGING FILE\n")
+        os.utime(os.path.join(root, rel), (0, 0))
     w("uploads/cafe\u0301.txt", b"NFD NAMED FILE\n")
     os.makedirs(os.path.join(U, "nfd\u0308dir"))
     w("uploads-evil/x.txt", b"SIBLING\n")
